@@ -144,6 +144,16 @@ func (g *GlobalTables) load(u *Unit, p *Path, glob *ssa.Global) *Term {
 		}
 		return ref.WithT(T)
 	}
+	if glob.Pkg != u.v.enc.pkg {
+		// a variable of another package (io.ErrShortWrite, ...): an opaque value; error sentinels are non-nil
+		c := u.cx.Named("g_"+mangle(glob.Pkg.Pkg.Path())+"_"+name, enc.SortOf(T)).WithT(T)
+		if types.Identical(T, errType) && !u.globalsAssumed["ext:"+name] {
+			u.globalsAssumed["ext:"+name] = true
+			u.globalFacts = append(u.globalFacts, Gt(c, IntLit(0)))
+		}
+		u.noteUnmodelled("value of " + glob.Pkg.Pkg.Path() + "." + name + " is opaque")
+		return c
+	}
 	u.fail("read of package-level variable %s, whose initialiser is not a ground table", name)
 	return nil
 }
